@@ -132,10 +132,8 @@ func (w *tlsWorld) startServerFull(t *testing.T, rc *RunCtx, caCert []byte, nf s
 	if pop != nil {
 		ccfg.Pops = []*Population{pop}
 	}
-	if strings.Contains(nf, "signer-test") {
-		// the peer table of the peer-edge instance also lists a peer by address
-		ccfg.ExtraPeers = map[uint64]string{8: "127.0.0.1:9108"}
-	}
+	// every peer table also lists a peer by address - the loopback address the callers of these layers come from
+	ccfg.ExtraPeers = map[uint64]string{8: "127.0.0.1:9108"}
 	c := NewCluster(t, rc, s, ccfg)
 	// Peer names as in the repository's test certificates.
 	n := c.Nodes[0]
